@@ -5,6 +5,7 @@ import (
 	"go/ast"
 	"go/token"
 	"go/types"
+	"golang.org/x/tools/go/ssa"
 	"strings"
 
 	"verif/checker/cfgx"
@@ -367,7 +368,56 @@ func RuleDN1(c *Ctx) {
 	for _, f := range reachStatic(c.P, pk, []*types.Func{handler}) {
 		below[f] = true
 	}
+	// relay[g] = index of the parameter of g that reaches a setter's stored text unchanged
+	relay := map[*types.Func]int{}
 	for _, s := range setters {
+		// inside the setter: what is stored into a Description field is the address of a
+		// parameter that is never reassigned
+		sfd := c.P.Decl(s)
+		spk := c.P.PkgOfDecl(sfd)
+		textIdx := -1
+		okStore := sfd != nil
+		nStores := 0
+		if sfd != nil {
+			ast.Inspect(sfd.Body, func(x ast.Node) bool {
+				as, ok := x.(*ast.AssignStmt)
+				if !ok {
+					return true
+				}
+				for i, l := range as.Lhs {
+					sel, ok := ast.Unparen(l).(*ast.SelectorExpr)
+					if !ok || sel.Sel.Name != "Description" || i >= len(as.Rhs) {
+						continue
+					}
+					nStores++
+					idx := -1
+					if u, ok := ast.Unparen(as.Rhs[i]).(*ast.UnaryExpr); ok && u.Op == token.AND {
+						if id, ok := ast.Unparen(u.X).(*ast.Ident); ok {
+							idx = paramIndexOf(spk.TypesInfo, sfd, spk.TypesInfo.ObjectOf(id))
+							if idx >= 0 && assignedAnywhere(spk.TypesInfo, sfd.Body, spk.TypesInfo.ObjectOf(id)) {
+								idx = -1
+							}
+						}
+					}
+					if idx < 0 || (textIdx >= 0 && textIdx != idx) {
+						okStore = false
+					}
+					textIdx = idx
+				}
+				return true
+			})
+		}
+		skey := s.Name() + ":store"
+		if okStore && nStores > 0 && textIdx >= 0 {
+			sc.Holds(skey, c.P.Pos(sfd.Pos()), fmt.Sprintf("stores the address of its parameter #%d, which it never reassigns", textIdx))
+		} else {
+			pos := "-"
+			if sfd != nil {
+				pos = c.P.Pos(sfd.Pos())
+			}
+			sc.Violation(skey, pos, "the setter stores into Description something other than its unmodified text parameter: the catalog's description is not the normalised text for this host")
+			continue
+		}
 		for i, cs := range c.callSitesOf(s) {
 			key := fmt.Sprintf("%s<-%s#%d", s.Name(), c.P.DeclName(cs.Decl), i+1)
 			caller := declObj(cs)
@@ -375,7 +425,35 @@ func RuleDN1(c *Ctx) {
 				sc.Violation(key, c.P.Pos(cs.Call.Pos()), "a description is stored from outside the Description handler: it bypasses the normaliser")
 				continue
 			}
-			sc.Holds(key, c.P.Pos(cs.Call.Pos()), "called under the Description handler")
+			if caller == handler {
+				relay[s] = textIdx
+				sc.Holds(key, c.P.Pos(cs.Call.Pos()), "called by the Description handler itself")
+				continue
+			}
+			// the relaying function passes its own parameter on untouched
+			j := -1
+			if textIdx < len(cs.Call.Args) {
+				ccf := c.CFG(cs.Pk, cs.Body)
+				if id, ok := ast.Unparen(ccf.Resolve(cs.Call.Args[textIdx])).(*ast.Ident); ok {
+					if fdc := cs.Decl; fdc != nil {
+						obj := cs.Pk.TypesInfo.ObjectOf(id)
+						j = paramIndexOf(cs.Pk.TypesInfo, fdc, obj)
+						if j >= 0 && assignedAnywhere(cs.Pk.TypesInfo, fdc.Body, obj) {
+							j = -1
+						}
+					}
+				}
+			}
+			if j < 0 {
+				sc.Violation(key, c.P.Pos(cs.Call.Pos()), "the text handed to the setter is not the caller's unmodified parameter: it is transformed between the normaliser and the catalog, for this host only")
+				continue
+			}
+			if prev, seen := relay[caller]; seen && prev != j {
+				sc.Undecided(key, c.P.Pos(cs.Call.Pos()), "one relaying function forwards two different parameters")
+				continue
+			}
+			relay[caller] = j
+			sc.Holds(key, c.P.Pos(cs.Call.Pos()), fmt.Sprintf("called under the Description handler; forwards its parameter #%d untouched", j))
 		}
 	}
 	// inside the handler: every call that hands the text on is dominated by the normaliser's success and the emptiness test
@@ -407,19 +485,32 @@ func RuleDN1(c *Ctx) {
 		}
 		// passes a string derived from bb?
 		passes := false
-		for _, a := range call.Args {
+		isNormText := func(a ast.Expr) bool {
 			r := cf.Resolve(a)
 			if conv, ok := ast.Unparen(r).(*ast.CallExpr); ok && len(conv.Args) == 1 {
-				if id, ok := ast.Unparen(conv.Args[0]).(*ast.Ident); ok && info.ObjectOf(id) == bbObj {
-					passes = true
+				if tv, isT := info.Types[conv.Fun]; isT && tv.IsType() {
+					if id, ok := ast.Unparen(conv.Args[0]).(*ast.Ident); ok && info.ObjectOf(id) == bbObj {
+						return true
+					}
 				}
 			}
+			return false
 		}
-		if !passes {
+		for _, a := range call.Args {
+			if isNormText(a) {
+				passes = true
+			}
+		}
+		j, relays := relay[g]
+		if !passes && !relays {
 			return true
 		}
 		n++
 		key := fmt.Sprintf("handler->%s#%d", g.Name(), n)
+		if relays && (j >= len(call.Args) || !isNormText(call.Args[j])) {
+			sc.Violation(key, c.P.Pos(call.Pos()), fmt.Sprintf("argument #%d, which %s forwards to the catalog as the description, is not string(normalised text)", j, g.Name()))
+			return true
+		}
 		genErr := func(fa cfgx.Fact) bool {
 			be, ok := ast.Unparen(fa.Expr).(*ast.BinaryExpr)
 			if !ok {
@@ -579,4 +670,700 @@ func RuleK2p(c *Ctx) {
 func isByte(t types.Type) bool {
 	b, ok := t.Underlying().(*types.Basic)
 	return ok && b.Kind() == types.Uint8
+}
+
+// paramIndexOf returns the index of obj among the parameters of fd, or -1.
+func paramIndexOf(info *types.Info, fd *ast.FuncDecl, obj types.Object) int {
+	if fd == nil || obj == nil {
+		return -1
+	}
+	i := 0
+	for _, fl := range fd.Type.Params.List {
+		if len(fl.Names) == 0 {
+			i++
+			continue
+		}
+		for _, id := range fl.Names {
+			if info.ObjectOf(id) == obj {
+				return i
+			}
+			i++
+		}
+	}
+	return -1
+}
+
+// assignedAnywhere reports whether obj is assigned (=, op=, ++/--) anywhere in body,
+// function literals included.
+func assignedAnywhere(info *types.Info, body *ast.BlockStmt, obj types.Object) bool {
+	hit := false
+	ast.Inspect(body, func(x ast.Node) bool {
+		switch s := x.(type) {
+		case *ast.AssignStmt:
+			for _, l := range s.Lhs {
+				if id, ok := ast.Unparen(l).(*ast.Ident); ok && info.ObjectOf(id) == obj && s.Tok != token.DEFINE {
+					hit = true
+				}
+			}
+		case *ast.IncDecStmt:
+			if id, ok := ast.Unparen(s.X).(*ast.Ident); ok && info.ObjectOf(id) == obj {
+				hit = true
+			}
+		}
+		return true
+	})
+	return hit
+}
+
+// descriptionNormaliser finds the Description handler and the package function
+// func([]byte) ([]byte, error) it calls.
+func (c *Ctx) descriptionNormaliser() (handler, norm *types.Func) {
+	pk := c.P.Pkg("core")
+	table := c.handlerTable()
+	if pk == nil || table["Description"] == nil {
+		return nil, nil
+	}
+	handler = table["Description"]
+	hfd := c.P.Decl(handler)
+	if hfd == nil {
+		return handler, nil
+	}
+	info := pk.TypesInfo
+	ast.Inspect(hfd.Body, func(n ast.Node) bool {
+		if call, ok := n.(*ast.CallExpr); ok {
+			if g := Callee(info, call); g != nil && g.Pkg() == pk.Types {
+				sig := g.Type().(*types.Signature)
+				if sig.Recv() == nil && sig.Params().Len() == 1 && sig.Results().Len() == 2 && isErrorType(sig.Results().At(1).Type()) {
+					if sl, ok := sig.Params().At(0).Type().Underlying().(*types.Slice); ok && isByte(sl.Elem()) {
+						norm = g
+					}
+				}
+			}
+		}
+		return true
+	})
+	return handler, norm
+}
+
+// RuleDN2: line-end normalisation is on every value path of the normaliser.
+func RuleDN2(c *Ctx) {
+	sc := c.Run.Begin("DN2", "in the description normaliser every value path from the raw body to a success result passes through the replacement of CR LF and then of CR by LF, whichever spelling (bare or parenthesised) the body has", 2)
+	defer sc.End()
+	_, norm := c.descriptionNormaliser()
+	if norm == nil {
+		sc.Undecided("anchors", "-", "unresolved anchor: the description normaliser")
+		return
+	}
+	fn := c.P.SSAFunc(norm)
+	if fn == nil {
+		sc.Undecided("anchors", "-", "no SSA form for the description normaliser")
+		return
+	}
+	replacer := func(old string) func(*ssa.Call) bool {
+		return func(call *ssa.Call) bool {
+			callee := call.Call.StaticCallee()
+			if callee == nil || callee.Pkg == nil {
+				return false
+			}
+			pp := callee.Pkg.Pkg.Path()
+			if pp != "bytes" && pp != "strings" {
+				return false
+			}
+			args := call.Call.Args
+			switch callee.Name() {
+			case "ReplaceAll":
+				if len(args) != 3 {
+					return false
+				}
+			case "Replace":
+				if len(args) != 4 {
+					return false
+				}
+				if k, ok := args[3].(*ssa.Const); !ok || k.Value == nil || k.Int64() >= 0 {
+					return false
+				}
+			default:
+				return false
+			}
+			o, ok1 := constBytes(args[1])
+			n, ok2 := constBytes(args[2])
+			return ok1 && ok2 && o == old && n == "\n"
+		}
+	}
+	pos := c.P.Pos(c.P.Decl(norm).Pos())
+	for _, st := range []struct{ key, old, what string }{
+		{"cr", "\r", "a lone CR"},
+		{"crlf", "\r\n", "CR LF"},
+	} {
+		v, why, nodes := c.flowMustPass(fn, 0, replacer(st.old))
+		switch v {
+		case flowAll:
+			sc.Holds(st.key, pos, fmt.Sprintf("every value path to a success result replaces %s by LF (%d SSA values walked)", st.what, nodes))
+		case flowSkips:
+			sc.Violation(st.key, pos, "a success result of the normaliser is derived from the raw body without replacing "+st.what+" by LF: "+why+" - one spelling of the description keeps its CR line ends")
+		default:
+			sc.Undecided(st.key, pos, "value flow not decided: "+why)
+		}
+	}
+	// order: what the lone-CR replacement receives already went through the CR LF one
+	isCR, isCRLF := replacer("\r"), replacer("\r\n")
+	n := 0
+	var visit func(f *ssa.Function, seen map[*ssa.Function]bool)
+	visit = func(f *ssa.Function, seen map[*ssa.Function]bool) {
+		if f == nil || seen[f] || !c.P.IsRepoFunc(f) {
+			return
+		}
+		seen[f] = true
+		for _, b := range f.Blocks {
+			for _, in := range b.Instrs {
+				call, ok := in.(*ssa.Call)
+				if !ok {
+					continue
+				}
+				if isCR(call) && f == fn {
+					n++
+					v, why, _ := c.flowFrom(fn, call.Call.Args[0], isCRLF)
+					key := fmt.Sprintf("order#%d", n)
+					switch v {
+					case flowAll:
+						sc.Holds(key, c.P.Pos(call.Pos()), "the lone-CR replacement receives text whose CR LF pairs are already single LFs")
+					case flowSkips:
+						sc.Violation(key, c.P.Pos(call.Pos()), "the lone-CR replacement can receive text that still has CR LF pairs ("+why+"): a Windows line end becomes two line ends")
+					default:
+						sc.Undecided(key, c.P.Pos(call.Pos()), "value flow not decided: "+why)
+					}
+				}
+			}
+		}
+	}
+	visit(fn, map[*ssa.Function]bool{})
+}
+
+// ---------------------------------------------------------------- LC1
+
+// accumulatingLoops lists, for one function body (declaration or literal), the loops whose
+// body accumulates: appends to a variable declared outside the loop, stores into a map
+// declared outside the loop, or calls something whose error it propagates. Nested function
+// literals are separate bodies.
+type accLoop struct {
+	Loop    ast.Stmt
+	Body    *ast.BlockStmt
+	Why     string
+	Exits   []string // early exits that report success because of the current element
+	Neutral []string // early exits under loop-invariant conditions only
+}
+
+func (c *Ctx) accumulatingLoops(pk *pkgT, body *ast.BlockStmt, resultsErr bool, noResults bool) []accLoop {
+	info := pk.TypesInfo
+	var out []accLoop
+	var loops []ast.Stmt
+	inspectNoLit(body, func(x ast.Node) bool {
+		switch x.(type) {
+		case *ast.RangeStmt:
+			loops = append(loops, x.(ast.Stmt))
+		case *ast.ForStmt:
+			// `for { ... }` without a condition ends by break/return by construction
+			if x.(*ast.ForStmt).Cond != nil {
+				loops = append(loops, x.(ast.Stmt))
+			}
+		}
+		return true
+	})
+	for _, l := range loops {
+		var lb *ast.BlockStmt
+		switch s := l.(type) {
+		case *ast.ForStmt:
+			lb = s.Body
+		case *ast.RangeStmt:
+			lb = s.Body
+		}
+		declaredOutside := func(e ast.Expr) bool {
+			obj := cfgx.RootObj(info, e)
+			if obj == nil {
+				return false
+			}
+			return obj.Pos() < l.Pos() || obj.Pos() > l.End()
+		}
+		why := ""
+		inspectNoLit(lb, func(x ast.Node) bool {
+			switch s := x.(type) {
+			case *ast.AssignStmt:
+				for i, lhs := range s.Lhs {
+					if i < len(s.Rhs) {
+						if call, ok := ast.Unparen(s.Rhs[i]).(*ast.CallExpr); ok {
+							if id, ok := ast.Unparen(call.Fun).(*ast.Ident); ok && id.Name == "append" && info.Uses[id] == types.Universe.Lookup("append") && declaredOutside(lhs) {
+								why = "appends to " + types.ExprString(lhs)
+							}
+						}
+					}
+					if ix, ok := ast.Unparen(lhs).(*ast.IndexExpr); ok && s.Tok == token.ASSIGN {
+						if _, isMap := info.TypeOf(ix.X).Underlying().(*types.Map); isMap && declaredOutside(ix.X) {
+							why = "stores into " + types.ExprString(ix.X)
+						}
+					}
+				}
+			case *ast.IfStmt:
+				// if err := f(...); err != nil { return ..., err }
+				if as, ok := s.Init.(*ast.AssignStmt); ok && len(as.Rhs) == 1 {
+					if call, ok := ast.Unparen(as.Rhs[0]).(*ast.CallExpr); ok {
+						if g := Callee(info, call); g != nil && c.P.Decl(g) != nil && endsWithErrorReturn(info, s.Body) {
+							why = "propagates the error of " + g.Name()
+						}
+					}
+				}
+			}
+			return true
+		})
+		if why == "" {
+			continue
+		}
+		al := accLoop{Loop: l, Body: lb, Why: why}
+		// variables whose value depends on the current element: the loop variables and
+		// everything defined or assigned in the body from them (fixpoint)
+		derived := map[types.Object]bool{}
+		mark := func(e ast.Expr) {
+			if id, ok := e.(*ast.Ident); ok && id.Name != "_" {
+				if o := info.ObjectOf(id); o != nil {
+					derived[o] = true
+				}
+			}
+		}
+		switch ls := l.(type) {
+		case *ast.RangeStmt:
+			if ls.Key != nil {
+				mark(ls.Key)
+			}
+			if ls.Value != nil {
+				mark(ls.Value)
+			}
+		case *ast.ForStmt:
+			if as, ok := ls.Init.(*ast.AssignStmt); ok {
+				for _, x := range as.Lhs {
+					mark(x)
+				}
+			}
+		}
+		mentions := func(e ast.Node) bool {
+			hit := false
+			if e == nil {
+				return false
+			}
+			ast.Inspect(e, func(y ast.Node) bool {
+				if id, ok := y.(*ast.Ident); ok && derived[info.ObjectOf(id)] {
+					hit = true
+				}
+				return !hit
+			})
+			return hit
+		}
+		for changed := true; changed; {
+			changed = false
+			inspectNoLit(lb, func(y ast.Node) bool {
+				switch as := y.(type) {
+				case *ast.AssignStmt:
+					dep := false
+					for _, r := range as.Rhs {
+						if mentions(r) {
+							dep = true
+						}
+					}
+					if dep {
+						for _, x := range as.Lhs {
+							if id, ok := ast.Unparen(x).(*ast.Ident); ok && id.Name != "_" {
+								if o := info.ObjectOf(id); o != nil && !derived[o] && o.Pos() >= l.Pos() && o.Pos() <= l.End() {
+									derived[o] = true
+									changed = true
+								}
+							}
+						}
+					}
+				case *ast.RangeStmt:
+					if mentions(as.X) {
+						for _, x := range []ast.Expr{as.Key, as.Value} {
+							if id, ok := x.(*ast.Ident); ok && id.Name != "_" {
+								if o := info.ObjectOf(id); o != nil && !derived[o] {
+									derived[o] = true
+									changed = true
+								}
+							}
+						}
+					}
+				case *ast.ValueSpec:
+					dep := false
+					for _, r := range as.Values {
+						if mentions(r) {
+							dep = true
+						}
+					}
+					if dep {
+						for _, id := range as.Names {
+							if o := info.ObjectOf(id); o != nil && !derived[o] {
+								derived[o] = true
+								changed = true
+							}
+						}
+					}
+				}
+				return true
+			})
+		}
+		// early exits with success: break out of this loop; return whose error result is
+		// nil. An exit counts when it is unconditional or when a condition on the way to it
+		// looks at the current element ("this element is X, so skip all the others"); an
+		// exit under loop-invariant conditions only ("nothing left to do") does not.
+		record := func(what string, pos token.Pos, conds []ast.Node) {
+			// the innermost condition decides: `if nothingLeft { break }` nested in a test
+			// about the element is still a "done" exit
+			dep := len(conds) == 0
+			for k := len(conds) - 1; k >= 0 && k >= len(conds)-innermost(conds); k-- {
+				if mentions(conds[k]) {
+					dep = true
+				}
+			}
+			if dep {
+				al.Exits = append(al.Exits, what+" at "+c.P.Pos(pos))
+			} else {
+				al.Neutral = append(al.Neutral, what+" at "+c.P.Pos(pos))
+			}
+		}
+		var visit func(st ast.Stmt, inner bool, conds []ast.Node)
+		visitList := func(list []ast.Stmt, inner bool, conds []ast.Node) {
+			for _, st := range list {
+				visit(st, inner, conds)
+			}
+		}
+		with := func(conds []ast.Node, more ...ast.Node) []ast.Node {
+			out := append([]ast.Node{}, conds...)
+			for _, m := range more {
+				if m != nil && !isNilNode(m) {
+					out = append(out, m)
+				}
+			}
+			return out
+		}
+		visit = func(st ast.Stmt, inner bool, conds []ast.Node) {
+			switch s := st.(type) {
+			case *ast.BlockStmt:
+				visitList(s.List, inner, conds)
+			case *ast.LabeledStmt:
+				visit(s.Stmt, inner, conds)
+			case *ast.IfStmt:
+				cc := with(conds, s.Cond, s.Init)
+				visit(s.Body, inner, cc)
+				if s.Else != nil {
+					visit(s.Else, inner, cc)
+				}
+			case *ast.ForStmt:
+				visit(s.Body, true, with(conds, s.Cond))
+			case *ast.RangeStmt:
+				visit(s.Body, true, conds)
+			case *ast.SwitchStmt:
+				for _, cl := range s.Body.List {
+					cc := cl.(*ast.CaseClause)
+					nodes := []ast.Node{s.Tag, s.Init}
+					for _, e := range cc.List {
+						nodes = append(nodes, e)
+					}
+					if cc.List == nil {
+						// default: depends on all the other cases
+						for _, o := range s.Body.List {
+							for _, e := range o.(*ast.CaseClause).List {
+								nodes = append(nodes, e)
+							}
+						}
+					}
+					visitList(cc.Body, true, with(conds, nodes...))
+				}
+			case *ast.TypeSwitchStmt:
+				for _, cl := range s.Body.List {
+					visitList(cl.(*ast.CaseClause).Body, true, with(conds, s.Assign))
+				}
+			case *ast.SelectStmt:
+				for _, cl := range s.Body.List {
+					visitList(cl.(*ast.CommClause).Body, true, with(conds, cl.(*ast.CommClause).Comm))
+				}
+			case *ast.BranchStmt:
+				switch {
+				case s.Tok == token.BREAK && s.Label == nil && !inner:
+					record("break", s.Pos(), conds)
+				case s.Tok == token.BREAK && s.Label != nil:
+					if ls, ok := labelTarget(body, s.Label.Name); ok && ls == l {
+						record("break", s.Pos(), conds)
+					}
+				case s.Tok == token.GOTO:
+					record("goto", s.Pos(), conds)
+				}
+			case *ast.ReturnStmt:
+				if noResults && len(s.Results) == 0 {
+					record("return", s.Pos(), conds)
+				} else if resultsErr && len(s.Results) > 0 {
+					if tv, has := info.Types[s.Results[len(s.Results)-1]]; has && tv.IsNil() {
+						record("return nil", s.Pos(), conds)
+					}
+				}
+			}
+		}
+		visit(lb, false, nil)
+		out = append(out, al)
+	}
+	return out
+}
+
+// innermost: how many trailing entries of conds belong to the innermost test (an if
+// contributes its condition and, when present, its init statement).
+func innermost(conds []ast.Node) int {
+	if len(conds) == 0 {
+		return 0
+	}
+	n := 1
+	if _, isStmt := conds[len(conds)-1].(ast.Stmt); isStmt && len(conds) >= 2 {
+		n = 2
+	}
+	return n
+}
+
+func isNilNode(n ast.Node) bool {
+	switch x := n.(type) {
+	case ast.Expr:
+		return x == nil
+	case ast.Stmt:
+		return x == nil
+	}
+	return n == nil
+}
+
+func labelTarget(body *ast.BlockStmt, name string) (ast.Stmt, bool) {
+	var out ast.Stmt
+	ast.Inspect(body, func(x ast.Node) bool {
+		if ls, ok := x.(*ast.LabeledStmt); ok && ls.Label.Name == name {
+			out = ls.Stmt
+		}
+		return true
+	})
+	return out, out != nil
+}
+
+// RuleLC1: loops that bind path parameters visit every element.
+func RuleLC1(files ...string) func(c *Ctx) {
+	return func(c *Ctx) {
+		sc := c.Run.Begin("LC1", "in the path-parameter code every loop that accumulates (appends to an outer slice, fills an outer map, or propagates a per-element error) runs over all elements: it is left early only with an error or under a condition that does not look at the current element, never by a break or a success return that depends on the element at hand", 6)
+		defer sc.End()
+		inScope := map[string]bool{}
+		for _, f := range files {
+			inScope[f] = true
+		}
+		n := 0
+		c.P.Funcs(func(pk *pkgT, fd *ast.FuncDecl) {
+			pos := c.P.Pos(fd.Pos())
+			file := pos
+			if i := strings.Index(pos, ":"); i > 0 {
+				file = pos[:i]
+			}
+			if !inScope[file] {
+				return
+			}
+			info := pk.TypesInfo
+			bodies := []struct {
+				body *ast.BlockStmt
+				typ  *ast.FuncType
+			}{{fd.Body, fd.Type}}
+			ast.Inspect(fd.Body, func(x ast.Node) bool {
+				if fl, ok := x.(*ast.FuncLit); ok {
+					bodies = append(bodies, struct {
+						body *ast.BlockStmt
+						typ  *ast.FuncType
+					}{fl.Body, fl.Type})
+				}
+				return true
+			})
+			k := 0
+			for _, b := range bodies {
+				resultsErr, noResults := false, b.typ.Results == nil || len(b.typ.Results.List) == 0
+				if !noResults {
+					last := b.typ.Results.List[len(b.typ.Results.List)-1]
+					resultsErr = isErrorLike(info.TypeOf(last.Type))
+				}
+				for _, al := range c.accumulatingLoops(pk, b.body, resultsErr, noResults) {
+					n++
+					k++
+					key := fmt.Sprintf("%s#%d", c.P.DeclName(fd), k)
+					if len(al.Exits) == 0 {
+						note := "is left early only with an error"
+						if len(al.Neutral) > 0 {
+							note = "is left early only with an error or under a loop-invariant condition (" + strings.Join(al.Neutral, "; ") + ")"
+						}
+						sc.Holds(key, c.P.Pos(al.Loop.Pos()), "accumulating loop ("+al.Why+") "+note)
+					} else {
+						sc.Violation(key, c.P.Pos(al.Loop.Pos()), "accumulating loop ("+al.Why+") is left early with success ("+strings.Join(al.Exits, "; ")+"): the remaining elements - later {parameters} of the path, later alternatives of an `or` - are neither bound nor checked")
+					}
+				}
+			}
+		})
+	}
+}
+
+// ---------------------------------------------------------------- PA1
+
+// RulePA1: every declared schema is expanded in its own right. The top-level calls of the
+// allOf expander (those outside its own recursion) are guarded by nothing but nil tests,
+// type assertions and the JSight-notation test: a guard that looks at the content of the
+// declaration ("has no allOf at the root, skip") leaves the declaration to be expanded,
+// or not, as a side effect of whatever else refers to it.
+func RulePA1(c *Ctx) {
+	sc := c.Run.Begin("PA1", "every top-level call of the allOf expander (one per kind of declared schema) is reached under no condition other than nil tests, type assertions and the notation test, and lies in a function the allOf stage calls unconditionally", 8)
+	defer sc.End()
+	pk := c.P.Pkg("core")
+	exp := c.allOfExpander()
+	if exp == nil || pk == nil {
+		sc.Undecided("anchors", "-", "unresolved anchor: the allOf expander")
+		return
+	}
+	inner := map[*types.Func]bool{}
+	for _, f := range reachStatic(c.P, pk, []*types.Func{exp}) {
+		inner[f] = true
+	}
+	notationT := c.Named("notation", "SchemaNotation")
+	n := 0
+	perFn := map[*types.Func]int{}
+	for _, cs := range c.callSitesOf(exp) {
+		caller := declObj(cs)
+		if caller == nil || inner[caller] {
+			continue
+		}
+		n++
+		perFn[caller]++
+		key := fmt.Sprintf("%s#%d", c.P.DeclName(cs.Decl), perFn[caller])
+		info := cs.Pk.TypesInfo
+		cf := c.CFG(cs.Pk, cs.Body)
+		bad := ""
+		for _, fa := range cf.FactsAt(cs.Call) {
+			if !pa1Allowed(info, cf, fa, notationT) {
+				bad = fmt.Sprintf("%s is %v", types.ExprString(fa.Expr), fa.Truth)
+				break
+			}
+		}
+		if bad == "" {
+			sc.Holds(key, c.P.Pos(cs.Call.Pos()), "guarded only by nil tests, type assertions and the notation test")
+		} else {
+			sc.Violation(key, c.P.Pos(cs.Call.Pos()), "the expansion of this kind of declared schema is conditional on its content ("+bad+"): a declaration that the filter skips is expanded only when another declaration inherits from it, so adding or deleting that other declaration changes this one's entry")
+		}
+	}
+	if n == 0 {
+		sc.Undecided("sites", "-", "no top-level call of the expander found")
+	}
+}
+
+func pa1Allowed(info *types.Info, cf *cfgx.Func, fa cfgx.Fact, notationT *types.Named) bool {
+	e := ast.Unparen(fa.Expr)
+	switch x := e.(type) {
+	case *ast.Ident:
+		// ok of a type assertion / comma-ok, or a single-assignment boolean already decomposed
+		if def := cf.Resolve(x); def != x {
+			return pa1Allowed(info, cf, cfgx.Fact{Expr: def, Truth: fa.Truth}, notationT)
+		}
+		obj := info.ObjectOf(x)
+		if obj == nil {
+			return false
+		}
+		ok := false
+		ast.Inspect(cf.Body, func(n ast.Node) bool {
+			as, isAs := n.(*ast.AssignStmt)
+			if !isAs || len(as.Lhs) != 2 || len(as.Rhs) != 1 {
+				return true
+			}
+			if id, isId := as.Lhs[1].(*ast.Ident); isId && info.ObjectOf(id) == obj {
+				if _, isTA := ast.Unparen(as.Rhs[0]).(*ast.TypeAssertExpr); isTA {
+					ok = true
+				}
+			}
+			return true
+		})
+		return ok
+	case *ast.BinaryExpr:
+		switch x.Op {
+		case token.EQL, token.NEQ:
+			if isNilIdentExpr(info, x.X) || isNilIdentExpr(info, x.Y) {
+				return true
+			}
+			if notationT != nil {
+				tx, ty := info.TypeOf(x.X), info.TypeOf(x.Y)
+				if (tx != nil && types.Identical(tx, notationT)) || (ty != nil && types.Identical(ty, notationT)) {
+					return true
+				}
+			}
+		case token.LAND, token.LOR:
+			return pa1Allowed(info, cf, cfgx.Fact{Expr: x.X, Truth: fa.Truth}, notationT) && pa1Allowed(info, cf, cfgx.Fact{Expr: x.Y, Truth: fa.Truth}, notationT)
+		}
+	case *ast.UnaryExpr:
+		if x.Op == token.NOT {
+			return pa1Allowed(info, cf, cfgx.Fact{Expr: x.X, Truth: !fa.Truth}, notationT)
+		}
+	}
+	return false
+}
+
+func isNilIdentExpr(info *types.Info, e ast.Expr) bool {
+	tv, ok := info.Types[e]
+	return ok && tv.IsNil()
+}
+
+// allOfExpander finds by role the method of JApiCore that expands allOf in a schema tree:
+// its parameters are (*SchemaContentJSight, *StringSet), it returns an error, and the
+// functions it reaches mark a visited set (store into a map field of JApiCore).
+func (c *Ctx) allOfExpander() *types.Func {
+	core := c.Named("core", "JApiCore")
+	scj := c.Named("catalog", "SchemaContentJSight")
+	set := c.Named("catalog", "StringSet")
+	pk := c.P.Pkg("core")
+	if core == nil || scj == nil || set == nil || pk == nil {
+		return nil
+	}
+	isPtrTo := func(t types.Type, n *types.Named) bool {
+		p, ok := t.(*types.Pointer)
+		return ok && types.Identical(p.Elem(), n)
+	}
+	var found []*types.Func
+	for i := 0; i < core.NumMethods(); i++ {
+		m := core.Method(i)
+		sig := m.Type().(*types.Signature)
+		if sig.Params().Len() != 2 || sig.Results().Len() != 1 || !isErrorType(sig.Results().At(0).Type()) {
+			continue
+		}
+		if !isPtrTo(sig.Params().At(0).Type(), scj) || !isPtrTo(sig.Params().At(1).Type(), set) {
+			continue
+		}
+		marks := false
+		for _, f := range reachStatic(c.P, pk, []*types.Func{m}) {
+			fd := c.P.Decl(f)
+			if fd == nil {
+				continue
+			}
+			info := pk.TypesInfo
+			ast.Inspect(fd.Body, func(n ast.Node) bool {
+				as, ok := n.(*ast.AssignStmt)
+				if !ok {
+					return true
+				}
+				for _, l := range as.Lhs {
+					ix, ok := ast.Unparen(l).(*ast.IndexExpr)
+					if !ok {
+						continue
+					}
+					if sel, ok := ast.Unparen(ix.X).(*ast.SelectorExpr); ok {
+						if fld, ok := info.ObjectOf(sel.Sel).(*types.Var); ok && fld.IsField() && fieldOwner(core, fld) {
+							marks = true
+						}
+					}
+				}
+				return true
+			})
+		}
+		if marks {
+			found = append(found, m)
+		}
+	}
+	if len(found) == 1 {
+		return found[0]
+	}
+	return nil
 }
